@@ -238,6 +238,9 @@ func stripIdx(s string) string {
 
 // constValue reads a package-level constant.
 func constValue(w *World, name string) (int64, bool) {
+	if nn, ok := constAlias[libPath+"."+name]; ok {
+		name = nn
+	}
 	o := w.LibP.Types.Scope().Lookup(name)
 	c, ok := o.(interface{ Val() constant.Value })
 	if !ok || o == nil {
